@@ -92,6 +92,7 @@ Definition lentry_eqb (a b : lentry) : bool :=
   match a, b with
   | LInvoke x, LInvoke y => obs_eqb x y
   | LValue v e, LValue v' e' => val_eqb v v' && opt_eqb gerr_eqb e e'
+  | LParsed t x, LParsed t' x' => Bool.eqb t t' && beq x x'
   | _, _ => false
   end.
 
